@@ -27,8 +27,9 @@ def main():
             meta = json.load(open(os.path.join(d, 'meta.json')))
             own = meta['property']
             sh('git checkout -- .', cwd=WT)
-            r = sh('git apply %s 2>/dev/null || git apply -C1 %s 2>/dev/null || patch -p1 -s -F3 --no-backup-if-mismatch < %s'
-                   % (patch, patch, patch), cwd=WT)
+            r = sh('git apply %s 2>/dev/null || git apply -C1 %s 2>/dev/null' % (patch, patch), cwd=WT)
+            if r.returncode == 0:
+                r = sh('/venv/bin/python -c "import mininec.mininec, mininec.pulse, mininec.taper"', cwd=WT)
             if r.returncode:
                 meta['caught_by'] = None
                 meta['matrix_note'] = 'patch does not apply to the current (repaired) tree'
@@ -40,8 +41,8 @@ def main():
             for c in checks:
                 p = subprocess.run('timeout 1500 %s/bin/check %s --tier quick' % (ROOT, c), shell=True, env=env,
                                    capture_output=True, text=True)
-                (caught if p.returncode == 1 and 'VIOLATION' in p.stdout else
-                 broken if p.returncode not in (0, 1) else missed).append(c)
+                (caught if p.returncode == 1 and 'VIOLATION property=' in p.stdout else
+                 missed if p.returncode == 0 else broken).append(c)
             meta['caught_by'] = caught
             meta['not_caught_by'] = missed
             if broken:
